@@ -2,47 +2,54 @@ package main
 
 import (
 	"fmt"
+	"io"
+	"strings"
 
 	"github.com/freeconf/yang/meta"
 	"github.com/freeconf/yang/parser"
 )
 
-const H = `namespace "urn:m"; prefix m; revision 0; `
+func try(name string, f func() string) {
+	defer func() {
+		if r := recover(); r != nil {
+			fmt.Printf("%-20s PANIC %v\n", name, r)
+		}
+	}()
+	fmt.Printf("%-20s %s\n", name, f())
+}
 
 func main() {
-	for name, y := range map[string]string{
-		"7 refine max":     `module m { ` + H + ` grouping g { list l { key k; max-elements 5; leaf k { type string; } } list l2 { key k; max-elements unbounded; leaf k { type string; } } leaf-list ll { type string; max-elements unbounded; } } container x { uses g { refine l { max-elements unbounded; } refine l2 { max-elements 3; } refine ll { max-elements 3; } } } }`,
-		"12 augment order": `module m { ` + H + ` container c { }  augment /c/d { leaf x { type string; } }  augment /c { container d { } } }`,
-		"13 rpc grouping":  `module m { ` + H + ` rpc r { grouping g { leaf a { type string; } } input { uses g; } } }`,
-		"13 rpc typedef":   `module m { ` + H + ` rpc r { typedef t { type int32; } input { leaf a { type t; } } } }`,
-		"14 refine {}":     `module m { ` + H + ` grouping g { leaf a { type string; } } container x { uses g { refine a { } } } }`,
-		"15 typedef rel":   `module m { ` + H + ` typedef r { type leafref { path "../name"; } }  container c { leaf name { type int32; } leaf ref { type r; } } }`,
-		"C02-5 mandatory":  `module m { ` + H + ` typedef d { type int32; default 5; } leaf mm { type d; mandatory true; } leaf-list ll { type d; min-elements 1; } leaf ok { type d; } }`,
-	} {
-		func() {
-			defer func() {
-				if r := recover(); r != nil {
-					fmt.Println(name, "PANIC", r)
-				}
-			}()
-			m, err := parser.LoadModuleFromString(nil, y)
-			fmt.Println(name, "->", err)
-			if err != nil {
-				return
-			}
-			switch name {
-			case "7 refine max":
-				x := meta.Find(m, "x").(*meta.Container)
-				for _, n := range []string{"l", "l2", "ll"} {
-					d := meta.Find(x, n).(meta.HasListDetails)
-					fmt.Println("   ", n, d.MaxElements(), d.Unbounded())
-				}
-			case "C02-5 mandatory":
-				for _, n := range []string{"mm", "ll", "ok"} {
-					l := meta.Find(m, n).(meta.Leafable)
-					fmt.Println("   ", n, l.HasDefault(), l.DefaultValue())
-				}
-			}
-		}()
+	files := map[string]string{
+		"main": `module main { namespace "m"; prefix m; include s1; include s2; }`,
+		"s1":   `submodule s1 { belongs-to main { prefix m; } import x { prefix p; } leaf a { type p:t; } }`,
+		"s2":   `submodule s2 { belongs-to main { prefix m; } import x { prefix p2; } leaf b { type p2:t; } uses p2:g; }`,
+		"x":    `module x { namespace "x"; prefix x; typedef t { type string; } grouping g { leaf gg { type string; } } }`,
 	}
+	op := func(n, e string) (io.Reader, error) {
+		if y, ok := files[n]; ok {
+			return strings.NewReader(y), nil
+		}
+		return nil, nil
+	}
+	try("D1", func() string { m, err := parser.LoadModule(op, "main"); return fmt.Sprint(m != nil, err) })
+	try("D4", func() string {
+		m, err := parser.LoadModuleFromString(nil, `module main { namespace "m"; prefix m; extension e { argument a; } leaf a { type string; must "1" { m:e "q"; } } }`)
+		if err != nil {
+			return err.Error()
+		}
+		ext := m.DataDefinitions()[0].(*meta.Leaf).Musts()[0].Extensions()[0]
+		return meta.SchemaPath(ext)
+	})
+	try("D5", func() string {
+		m, _ := parser.LoadModuleFromString(nil, `module main { namespace "m"; prefix m; anydata a; }`)
+		return fmt.Sprint(m.DataDefinitions()[0].(meta.HasDefault).DefaultValue())
+	})
+	try("D7", func() string {
+		m, err := parser.LoadModuleFromString(nil, `module main { namespace "m"; prefix m; import x { prefix x; } }`)
+		return fmt.Sprint(m != nil, err)
+	})
+	try("D8", func() string {
+		m, err := parser.LoadModuleFromString(nil, `module main { namespace "m"; prefix m; leaf a { type nosuch; } }`)
+		return fmt.Sprint(m != nil, err)
+	})
 }
